@@ -88,30 +88,37 @@ def c11_cases(tier, seed):
     checky = [l.strip() for l in pc.stdout.split('\n') if l.strip()]
     ps = run_harness(['shuffles', '--seed', seed, '--n', 40 if tier == 'quick' else 800, '--seeds', os.path.join(ROOT, 'seeds')])
     shuf = [(l.split('|')[0], l.split('|')[1].split()) for l in ps.stdout.split('\n') if '|' in l]
+    pe = run_harness(['epq', '--seed', seed, '--n', 40 if tier == 'quick' else 600])
+    epq = [l.strip() for l in pe.stdout.split('\n') if l.strip()]
     cases = []
-    n = 130 if tier == 'quick' else 1500
+    n = 145 if tier == 'quick' else 1500
     while len(cases) < n:
         r = rng.random()
-        if r < 0.15 and shuf:
+        if r < 0.10 and epq:
+            # a double pawn push next to an enemy pawn: the en-passant capture arises at the horizon (quiescence)
+            fen = rng.choice(epq)
+            hist = []
+            depth = rng.choice([1, 1, 2])
+        elif r < 0.24 and shuf:
             # a shuffle in a position with a material imbalance: the reply that repeats the position is a draw
             # for the side that is behind (clock small, so only the repetition rule can see it)
             fen, hist = rng.choice(shuf)
             hist = list(hist)
             depth = rng.choice([1, 2, 2, 3])
-        elif r < 0.40 and checky:
+        elif r < 0.46 and checky:
             # sparse positions where checks occur inside a shallow tree (the check extension matters)
             fen = rng.choice(checky)
             hist = []
             depth = rng.choice([2, 2, 3, 3])
-        elif r < 0.52:
+        elif r < 0.56:
             fen = rng.choice(sparse + mates)
             hist = []
             depth = rng.choice([1, 2, 3, 3, 4])
-        elif r < 0.60:
+        elif r < 0.64:
             fen = rng.choice(corner)
             hist = []
             depth = rng.choice([1, 2, 2, 3])
-        elif r < 0.72:
+        elif r < 0.75:
             # clocks near 100: the fifty-move rule cuts inside the tree (also where a mate would land on the hundredth half-move)
             f = rng.choice(sparse + corner + mates + mates).split()
             f[4] = str(rng.choice([95, 96, 97, 98, 99]))
@@ -119,7 +126,7 @@ def c11_cases(tier, seed):
             fen = ' '.join(f)
             hist = []
             depth = rng.choice([2, 3, 4])
-        elif r < 0.82:
+        elif r < 0.84:
             fen = 'startpos'
             hist = list(rng.choice(SHUFFLES))
             depth = rng.choice([1, 2])
